@@ -620,7 +620,7 @@ def hll_accuracy_stage(prop, tier, seed, bins, tag):
     for b in (4, 5, 6, 7, 8, 10, 12, 14):
         m = 1 << b
         seeds = 4000 if b <= 7 else (1000 if b <= 8 else (200 if b <= 12 else 60))
-        for mult in (0.1, 0.4, 1.0, 3.0, 6.0, 20.0, 50.0):
+        for mult in (0.1, 0.25, 0.4, 0.7, 1.0, 1.5, 2.0, 2.2, 2.4, 2.6, 3.0, 3.5, 4.0, 4.5, 5.0, 6.0, 8.0, 12.0, 20.0, 50.0):
             n = max(1, int(m * mult))
             if n * seeds > 16_000_000:
                 continue
@@ -730,5 +730,43 @@ def c07_rates_stage(prop, tier, seed, bins, tag):
             sg.failures.append(('C07', '%s with_properties(n=%d, p=%g): reported Full within n distinct inserts for %d of 30 seeds' % (k, n, p_, full), case_lines))
         if k == 'bloom' and n >= 1000 and lenerr > 150:
             sg.failures.append(('C07', 'bloom len() off by %.1f%% after %d distinct inserts (p=%g)' % (lenerr / 10.0, n, p_), case_lines))
+    sg.wall = time.time() - t0
+    return [sg]
+
+
+def td_long_search_stage(prop, tier, seed, bins, tag):
+    """failing-input search for the size sentence of C04 (only after a break): very long unit-weight streams for every
+    scale function (the centroid count of K2/K3 depends on ln n), oracle only"""
+    sg = Stage('long-streams:td')
+    if tier != 'search':
+        return [sg]
+    t0 = time.time()
+    rng = random.Random(seed)
+    cases = []
+    for K in ('K0', 'K1', 'K2', 'K3'):
+        for delta in (20.0, 100.0):
+            L = ['new 0 %s %d 1000' % (K, gen.f64bits(delta))]
+            order = rng.choice(['sorted', 'random'])
+            nv = 300000
+            for j in range(nv):
+                x = float(j) if order == 'sorted' else rng.random()
+                L.append('ins 0 %d %d' % (gen.f64bits(x), gen.f64bits(1.0)))
+                if j in (1000, 30000, 100000):
+                    L.append('audit 0')
+            L += ['audit 0', 'ncent 0']
+            cases.append(gen.case('long_%s_%g' % (K, delta), 'td', {'freshpass': 0, 'iso': 0, 'rank': 0}, L))
+    path = os.path.join(build.BUILD, '%s_tdlong.cases' % tag)
+    gen.write_cases(path, cases)
+    src = {c[0].split()[1]: c for c in cases}
+    try:
+        tcs = corr.parse_transcript(corr.run_harness(bins.get('release') or bins['debug'], path, case_ms=120000))
+    except Exception as e:
+        sg.errors.append('harness run failed: %s' % e)
+        return [sg]
+    sg.cases = len(tcs)
+    for tc in tcs:
+        for p_, msg in tc.x:
+            c = src[tc.id]
+            sg.failures.append((p_, msg, [c[0], c[1], '# %d unit-weight inserts (%s)' % (300000, tc.id), 'audit 0', 'END']))
     sg.wall = time.time() - t0
     return [sg]
